@@ -13,9 +13,13 @@ One JSON object per input line, one JSON object per output line.
       -> {"edges":[[s,t],...],"ok":[...]} | {"edges":...,"cycle":[u,v]}
   {"op":"components","links":[...],"set_order":[...],"dests":[...]}
       -> {"ok":[dest,...],"schedule":[[dest,[link index,...]],...]} | {"cycle":[u,v]}
+  {"op":"flow","links":[{"sources":[[dest,attr|null],...],"target":k,"fn":name|null},...],"order":[...],"comps":[[dest,isClass],...]}
+      -> {"log":[[dest,[[key,val],...]],...],"ready":bool,"applied_end":[...]}      one instantiate_classes call on a parsed cfg;
+         val = {"raw":s}|{"ns":dest}|{"obj":dest}|{"attr":[val,name]}|{"app":[fn,[val,...]]}   (compute_fn table = symbolic application)
 -/
 import Lean.Data.Json
 import Jap.Core.Graph
+import Jap.Core.GraphFlow
 
 open Lean Jap.Graph
 
@@ -52,6 +56,37 @@ def topoFields (r : Except (TopoErr String) (List String)) : List (String × Jso
   | .error (.cycle u v) => [("cycle", Json.arr #[.str u, .str v])]
   | .error .internal => [("internal", .bool true)]
 
+partial def valToJson : Val → Json
+  | .raw s => Json.mkObj [("raw", .str s)]
+  | .ns d => Json.mkObj [("ns", .str d)]
+  | .obj d => Json.mkObj [("obj", .str d)]
+  | .attr v a => Json.mkObj [("attr", Json.arr #[valToJson v, .str a])]
+  | .app f args => Json.mkObj [("app", Json.arr #[.str f, .arr (args.map valToJson).toArray])]
+
+def flinkList (j : Json) : List FLink :=
+  match j.getObjVal? "links" with
+  | .ok (.arr xs) => xs.toList.map fun x =>
+    { sources := match x.getObjVal? "sources" with
+        | .ok (.arr ss) => ss.toList.filterMap fun p => match p with
+          | .arr #[.str d, .str a] => some (d, some a)
+          | .arr #[.str d, _] => some (d, none)
+          | _ => none
+        | _ => [],
+      target := match x.getObjVal? "target" with
+        | .ok (.str t) => t
+        | _ => "",
+      fn := match x.getObjVal? "fn" with
+        | .ok (.str f) => some f
+        | _ => none }
+  | _ => []
+
+def compList (j : Json) : List (String × Bool) :=
+  match j.getObjVal? "comps" with
+  | .ok (.arr xs) => xs.toList.filterMap fun p => match p with
+    | .arr #[.str d, .bool b] => some (d, b)
+    | _ => none
+  | _ => []
+
 def step (j : Json) : Json :=
   let op := match j.getObjVal? "op" with
     | .ok (.str s) => s
@@ -87,6 +122,14 @@ def step (j : Json) : Json :=
         ("schedule", .arr ((schedule links comps).map fun p =>
           Json.arr #[.str p.1, .arr (p.2.map fun i => Json.num (JsonNumber.fromNat i)).toArray]).toArray)]
     | .error e => Json.mkObj (topoFields (.error e))
+  | "flow" =>
+    let links := flinkList j
+    let comps := compList j
+    let r := instantiateClasses Val.app links (strList j "order") comps Cfg.parsed
+    Json.mkObj [("log", .arr (r.log.map fun e => Json.arr #[.str e.1,
+        .arr (e.2.map fun kv => Json.arr #[.str kv.1, valToJson kv.2]).toArray]).toArray),
+      ("ready", .bool (decide (SourcesReady links [] comps))),
+      ("applied_end", .arr (r.applied.map fun i => Json.num (JsonNumber.fromNat i)).toArray)]
   | _ => Json.mkObj [("bad-op", .str op)]
 
 partial def loop (h : IO.FS.Stream) (out : IO.FS.Stream) : IO Unit := do
